@@ -46,8 +46,13 @@ class Universe:
 class World:
   """Real objects for one universe."""
 
-  def __init__(self, uni: Universe, S=None, catalogue=None):
+  def __init__(self, uni: Universe, S=None, catalogue=None, alt=0, blink=False):
+    """alt: the calls are made in the caller's alternative process context (core.AltContext); blink: between two calls the
+    harness lets go of every parentless element that has children and takes it back THROUGH one of its children (a caller
+    that keeps a span keeps, through it, the paragraph the span is in)."""
     import ttconv.model as m
+    self.alt = alt
+    self.blink_on = blink
     self.m = m
     self.uni = uni
     self.catalogue = catalogue or []
@@ -108,6 +113,31 @@ class World:
       b = S["body"][d]
       if b and S["owner"][b - 1] == d + 1:
         self.docs[d].set_body(self.elems[b - 1])
+
+  # ---- object lifetime --------------------------------------------------------------------------
+  def blink(self):
+    """Drop the only reference the harness holds to each parentless element with children, then look for the element where
+    the model says it is: parent() of its first child.  An element that is gone is replaced by a fresh one of its kind (so
+    that the projection shows what a caller would find: a child without its parent)."""
+    import weakref
+    km = kinds_map()
+    for k in range(self.uni.n):
+      e = self.elems[k]
+      if e.parent() is not None or e.first_child() is None:
+        continue
+      child = e.first_child()
+      held_elsewhere = any(d.get_body() is e for d in self.docs)
+      if held_elsewhere:
+        continue
+      ref = weakref.ref(e)
+      self.index.pop(id(e), None)
+      self.elems[k] = None
+      del e
+      back = child.parent()
+      if back is None or ref() is None:
+        back = km[self.uni.kinds[k]](None)
+      self.elems[k] = back
+      self.index[id(back)] = k + 1
 
   # ---- projection -------------------------------------------------------------------------------
   def ix(self, e):
@@ -175,6 +205,13 @@ class World:
   # ---- operations -------------------------------------------------------------------------------
   def apply(self, op):
     """Execute one op record; returns True iff the call returned without raising."""
+    if self.blink_on:
+      self.blink()
+    from .core import AltContext
+    with AltContext(self.alt):
+      return self._apply(op)
+
+  def _apply(self, op):
     m = self.m
     E = lambda k: self.elems[k - 1] if k else None
     Dd = lambda k: self.docs[k - 1] if k else None
